@@ -38,6 +38,9 @@ type cliReq struct {
 	Pads       []int
 	TrailSplit []int
 	Traits     []string
+	Interim    int  // 0, or a 1xx status sent in a header block of its own before the response
+	Prio       bool // the response HEADERS frame carries the PRIORITY flag and its 5 bytes
+	HeadCL     int  // HEAD only: the content-length the response declares (a HEAD response has no body whatever it says)
 }
 
 type slowReader struct {
@@ -117,7 +120,7 @@ func genCliReq(rng *rand.Rand, conn string, n int, maxBody, maxResp int) *cliReq
 		}
 	}
 	// response
-	q.Status = []int{200, 200, 201, 202, 206, 301, 400, 404, 418, 500, 503, 299}[rng.Intn(12)]
+	q.Status = []int{200, 200, 201, 202, 206, 301, 400, 404, 418, 500, 503, 299, 204, 304}[rng.Intn(14)]
 	q.RespFields = append(q.RespFields, F{Name: "x-rtag", Value: q.Tag})
 	for i := rng.Intn(6); i > 0; i-- {
 		name := "x-r-" + randToken(rng, 1+rng.Intn(10), "abcdefghijklmnopqrstuvwxyz0123456789-_")
@@ -140,13 +143,27 @@ func genCliReq(rng *rand.Rand, conn string, n int, maxBody, maxResp int) *cliReq
 	if rn > maxResp {
 		rn = maxResp
 	}
-	if q.Method == "HEAD" {
+	if q.Method == "HEAD" || q.Status == 204 || q.Status == 304 {
 		rn = 0
 	}
 	q.RespBody = make([]byte, rn)
 	rng.Read(q.RespBody)
-	if rng.Intn(2) == 0 {
+	q.HeadCL = -1
+	if q.Method == "HEAD" && q.Status != 204 && rng.Intn(2) == 0 {
+		// what a GET would have returned: legal on a HEAD response, and no body follows
+		q.HeadCL = []int{1, 1234, 70000}[rng.Intn(3)]
+		q.RespFields = append(q.RespFields, F{Name: "content-length", Value: fmt.Sprint(q.HeadCL)})
+		q.Traits = append(q.Traits, "headcl")
+	} else if rng.Intn(2) == 0 && q.Status != 204 {
 		q.RespFields = append(q.RespFields, F{Name: "content-length", Value: fmt.Sprint(rn)})
+	}
+	if rng.Intn(8) == 0 {
+		q.Interim = []int{100, 103, 103}[rng.Intn(3)]
+		q.Traits = append(q.Traits, "interim")
+	}
+	if rng.Intn(8) == 0 {
+		q.Prio = true
+		q.Traits = append(q.Traits, "rprio")
 	}
 	if rng.Intn(5) == 0 {
 		for i := 1 + rng.Intn(2); i > 0; i-- {
@@ -306,6 +323,9 @@ func (q *cliReq) checkDelivered(c *rt.Call) string {
 		want[f.Name] = append(want[f.Name], f.Value)
 	}
 	for name, vals := range want {
+		if name == "content-length" && q.HeadCL >= 0 {
+			continue // fasthttp reports a HEAD response's declared length in its own way; only the empty body matters
+		}
 		if name == "content-length" {
 			if c.Res.Header.ContentLength() != len(q.RespBody) {
 				return fmt.Sprintf("content-length %d, the server sent %s", c.Res.Header.ContentLength(), vals[0])
@@ -343,10 +363,23 @@ func (q *cliReq) respData(stream uint32) [][]byte {
 }
 
 func (q *cliReq) respHeaderBytes(p *rt.Peer, stream uint32) []byte {
+	var interim []byte
+	if q.Interim != 0 {
+		ib := p.EncodeBlock([]F{{Name: ":status", Value: fmt.Sprint(q.Interim)}, {Name: "x-interim", Value: q.Tag}}, q.Choices)
+		interim = rt.Concat(rt.HeaderFrames(stream, ib, splitsFor(q.SplitSeed, len(ib)), -1, nil, false))
+	}
+	return append(interim, q.finalHeaderBytes(p, stream)...)
+}
+
+func (q *cliReq) finalHeaderBytes(p *rt.Peer, stream uint32) []byte {
 	fs := append([]F{{Name: ":status", Value: fmt.Sprint(q.Status)}}, q.RespFields...)
 	blk := p.EncodeBlock(fs, q.Choices)
 	es := len(q.RespBody) == 0 && len(q.RespTrail) == 0
-	return rt.Concat(rt.HeaderFrames(stream, blk, splitsFor(q.SplitSeed, len(blk)), q.PadLen, nil, es))
+	var prio *rt.Prio
+	if q.Prio {
+		prio = &rt.Prio{Dep: stream + 2, Weight: 77}
+	}
+	return rt.Concat(rt.HeaderFrames(stream, blk, splitsFor(q.SplitSeed, len(blk)), q.PadLen, prio, es))
 }
 
 func (q *cliReq) respTrailerBytes(p *rt.Peer, stream uint32) []byte {
